@@ -454,7 +454,8 @@ def run(ctx):
     bad = []
     drv = C.Driver()
     try:
-        for case in C.load_corpus(PID):
+        # C18_NO_CORPUS=1 (self-tests of the generators only): skip the stored witnesses
+        for case in ([] if os.environ.get("C18_NO_CORPUS") else C.load_corpus(PID)):
             r = eval_case(case, drv)
             ev.case(case, nontrivial=False)
             ev.count("src:corpus")
